@@ -5,7 +5,8 @@
    pre-step. *)
 From Coq Require Import List NArith.
 Import ListNotations.
-From UV Require Import Py.Val Py.Str Py.UrlLib Ural.InferRedirection Ural.Normalize Proofs.NormFacts.
+From Coq Require Import Permutation.
+From UV Require Import Py.Val Py.Str Py.UrlLib Ural.Utils Ural.Quote Ural.InferRedirection Ural.Normalize Proofs.NormFacts Proofs.SortFacts.
 
 Theorem C04_inference_is_a_prestep : forall e o u t r hp,
   infer_redirection_o o = true -> infer_redirection e u = Ok t ->
@@ -13,4 +14,17 @@ Theorem C04_inference_is_a_prestep : forall e o u t r hp,
   normalize_split e (no_infer o) t = Ok (NSplit r hp).
 Proof. exact normalize_is_prestep. Qed.
 
+(* order of query items: the query stage of normalize_url (per-item unquoting, per-item filtering, per-item
+   quoting when quoted=True, then sorted() with the key (name, value or "", has-a-value)) gives the same list
+   for any two orderings of the same items -- the key is injective, so stability never shows *)
+Theorem C04_query_order_irrelevant : forall (o : n_opts) (df : option (list str)) (l1 l2 : list qitem),
+  Permutation l1 l2 ->
+  let stage l :=
+    let qsl := filter (fun it => negb (should_strip_query_item o df it)) (safely_unquote_qsl l) in
+    let qsl := if n_quoted o then safely_quote_qsl qsl else qsl in
+    sort_stable qsl_sort_leb qsl in
+  stage l1 = stage l2.
+Proof. exact normalize_query_order_irrelevant. Qed.
+
 Print Assumptions C04_inference_is_a_prestep.
+Print Assumptions C04_query_order_irrelevant.
